@@ -48,7 +48,7 @@ func runC04(c *Ctx) {
 	c.Rule("R4.5", "E2", "low-quality limit installed on every track, honoured by adjustLayer, set only without simulcast", 4)
 	c.Rule("R4.6", "E6", "loss-based ceiling within [minLossRate, maxLossRate] (interval proof)", 1)
 	c.Rule("R4.7", "E2", "a packet starts a frame only where its payload descriptor says so; keyframes only at frame starts", 4)
-	runC04Flags(c)
+	runFrameStartFlags(c, "R4.7")
 	wr := p.Func("rtpconn", "rtpDownTrack", "Write")
 	al := p.Func("rtpconn", "rtpDownTrack", "adjustLayer")
 	if wr == nil || al == nil {
@@ -668,18 +668,18 @@ func limitRequestOK(p *Program, rq *FuncSrc) (ok bool, n int) {
 // the first packet of a frame.  Every store to Flags.Start / Flags.Keyframe in
 // PacketFlags is decided by assuming the stored expression true: for a VP8
 // descriptor that must give S != 0 and partition index 0, for VP9 the B bit.
-func runC04Flags(c *Ctx) {
+func runFrameStartFlags(c *Ctx, rule string) {
 	p := c.P
 	pf := p.Func("codecs", "", "PacketFlags")
 	if pf == nil {
-		c.Unknown("R4.7", "anchors", 0, "codecs.PacketFlags not found")
+		c.Unknown(rule, "anchors", 0, "codecs.PacketFlags not found")
 		return
 	}
 	info := pf.Pkg.TypesInfo
 	ff := p.Facts().Analyze(pf)
 	startF, keyF := p.Field("codecs", "Flags", "Start"), p.Field("codecs", "Flags", "Keyframe")
 	if startF == nil || keyF == nil {
-		c.Unknown("R4.7", "anchors", 0, "Flags.Start / Flags.Keyframe not found")
+		c.Unknown(rule, "anchors", 0, "Flags.Start / Flags.Keyframe not found")
 		return
 	}
 	// the descriptor locals, by type
@@ -781,12 +781,12 @@ func runC04Flags(c *Ctx) {
 			} else {
 				nStart++
 			}
-			c.Check(okSt, "R4.7", fmt.Sprintf("PacketFlags: %s set #%d", name, map[bool]int{true: nKey, false: nStart}[name == "Keyframe"]), as.Pos(),
+			c.Check(okSt, rule, fmt.Sprintf("PacketFlags: %s set #%d", name, map[bool]int{true: nKey, false: nStart}[name == "Keyframe"]), as.Pos(),
 				"true only at the first packet of a frame ("+which+" descriptor)", "flags."+name+" can be true on a packet that does not start a frame (VP8: S bit and partition index 0; VP9: B bit): layer switches and drops would cut frames in the middle")
 		}
 		return true
 	})
 	if nStart < 2 || nKey < 2 {
-		c.Bad("R4.7", "PacketFlags sets Start and Keyframe for VP8 and VP9", pf.Pos(), fmt.Sprintf("%d stores to Start, %d to Keyframe found (expected at least 2 each)", nStart, nKey))
+		c.Bad(rule, "PacketFlags sets Start and Keyframe for VP8 and VP9", pf.Pos(), fmt.Sprintf("%d stores to Start, %d to Keyframe found (expected at least 2 each)", nStart, nKey))
 	}
 }
